@@ -250,3 +250,48 @@ Proof.
     + intro H; apply N.eqb_eq in H; lia.
   - intro H; apply N.eqb_eq in H; lia.
 Qed.
+
+(* ------------------------------------------------------------------ lower_sorts: the shapes the replay checks mean what they say *)
+
+Lemma is_prefix_sound a : forall l, is_prefix a l = true -> exists post, l = a ++ post.
+Proof.
+  induction a as [|x a IH]; intros l; cbn [is_prefix]; [intros _; exists l; reflexivity|].
+  destruct l as [|y l]; [discriminate|]. intro H. apply andb_true_iff in H as [H1 H2]. apply N.eqb_eq in H1. subst y.
+  destruct (IH _ H2) as [post ->]. exists post. reflexivity.
+Qed.
+
+Lemma is_infix_sound a : forall l, is_infix a l = true -> exists pre post, l = pre ++ a ++ post.
+Proof.
+  induction l as [|y l IH]; cbn [is_infix]; intro H; apply orb_true_iff in H as [H|H].
+  - apply is_prefix_sound in H as [post ->]. exists [], post. reflexivity.
+  - discriminate.
+  - apply is_prefix_sound in H as [post ->]. exists [], post. reflexivity.
+  - destruct (IH H) as [pre [post ->]]. exists (y :: pre), post. reflexivity.
+Qed.
+
+Lemma is_suffix_sound a l : is_suffix a l = true -> exists pre, l = pre ++ a.
+Proof.
+  unfold is_suffix. intro H. apply is_prefix_sound in H as [post E]. exists (rev post).
+  rewrite <- (rev_involutive l), E, rev_app_distr, rev_involutive. reflexivity.
+Qed.
+
+(* lower_sorts puts the ids its declares handed back, in order, next to the directions *)
+Theorem lower_sorts_m_ids dirs results : length dirs = length results -> sorts_cids (lower_sorts_m dirs results) = results.
+Proof. intro H. unfold sorts_cids, lower_sorts_m. apply combine_snd. exact H. Qed.
+
+(* what a passed check says about the transform: its sort / compute ids ARE a run of consecutive declare results *)
+Theorem sorts_check_sound top t : sorts_check top t = true ->
+  match t with
+  | TSort srt => exists pre, top = pre ++ sorts_cids srt
+  | TAggregate _ c => exists pre, top = pre ++ c
+  | TTake _ _ srt => exists pre post, top = pre ++ sorts_cids srt ++ post
+  | TCompute _ _ (Some w) _ => exists pre post, top = pre ++ sorts_cids (w_sort w) ++ post
+  | _ => True
+  end.
+Proof.
+  destruct t; cbn [sorts_check]; try (intros _; exact I).
+  - destruct w as [w|]; [apply is_infix_sound | intros _; exact I].
+  - apply is_suffix_sound.
+  - apply is_suffix_sound.
+  - apply is_infix_sound.
+Qed.
